@@ -20,8 +20,16 @@ RULE = ("arrays: 2-D/3-D, odd/even extents, all 4/24 proper grid rotations of ev
         "with/without mask, with/without caller-supplied output buffers; exact rational rotations (Pythagorean / "
         "integer-quaternion) with dyadic translations at order 1 (compared voxel by voxel with the exact model) and at "
         "orders 0-3 (centre of mass of a blob); coordinate sets / Structure with dyadic coordinates. "
-        "distinct = distinct (kind, shape, rotation, translation, order, mask, centre) tuples; identity with zero "
-        "translation is trivial and not counted")
+        "Presentation of the arguments (a dimension of 'all arrays'): memory layouts C / Fortran / axis-permuted / strided / "
+        "reversed / offset views, read-only arrays and numpy.memmap; dtypes float32 / float64 / int8..int64 / uint8; "
+        "intensity scales 2^-30 .. 2^10 (exact powers of two) and offsets up to 1000; rotation matrices as float64 / "
+        "float32 / int, Fortran-ordered and sliced out of larger arrays; translations as float64 / float32 / int64 or "
+        "left out; out / out_mask given together, singly or not at all, in any layout, same-size or larger; a float64 "
+        "backend instance; Density with non-trivial origin and anisotropic sampling rate.  Call sequences on persistent "
+        "objects (array objects, output buffers, Density, Structure) with shapes, translations, orders, masks and centre "
+        "modes changing between calls.  Small-angle rotations (2-6 degrees) next to the Pythagorean ones. "
+        "distinct = distinct (kind, shape, rotation, translation, order, mask, centre, presentation) tuples; identity with "
+        "zero translation is trivial and not counted")
 ASSUMPTIONS = [
     "linalg.inv(R) enters the model as a parameter (the exact inverse); its contract inv(R)·R = 1 is checked on every case",
     "scipy.ndimage.affine_transform's coordinate contract (out[o] = interp(in, M[:d,:d]·o + M[:d,d]), zero outside "
@@ -30,6 +38,14 @@ ASSUMPTIONS = [
     "real matrices are float32 (backend default): order-1 voxel comparisons skip voxels whose exact source lies within "
     "1e-3 of a face of the box or of a grid plane's kink is irrelevant (linear), tolerance 2e-3*max|data|",
     "coordinate version: same dtype for coordinates and out, except in the dedicated dtype-mismatch stream",
+    "grid clauses are evaluated in units of the data's scale 2^k with tolerance max(1e-4, 1e-5 * max|value|): the transform is "
+    "linear, the error of spline interpolation and of float32 storage is relative to the largest value; integer / bool masks "
+    "are compared at orders 0 and 1 only (at orders 2, 3 the un-prefiltered smoothing is cast back to the integer type)",
+    "Density.rigid_transform's clean-up (voxels below eps * max|out| set to 0) is mirrored by cleanNoise; it is within the "
+    "tolerance above by construction (cleanNoise_error)",
+    "call sequences: the backend's default centre (centre of mass) is only used with the identity and no translation "
+    "(T(-t)C(c)C(-c) is exactly the identity matrix there); with a translation the float32 product c - t - c may be off by an "
+    "ulp, which moves sources across the zero-fill boundary",
 ]
 TRUSTED = ["C06: scipy spline interpolation (orders 2, 3) and prefilter are exercised, not modelled; order 1 and the "
            "grid group are modelled exactly"]
@@ -61,20 +77,28 @@ def leaves_invariant(R, shape):
     return [sum(abs(R[i][j]) * shape[j] for j in range(len(shape))) for i in range(len(shape))] == list(shape)
 
 
-def rational_rotation(rng, d):
-    """exact rotation matrix with rational entries (rows of Fractions)"""
+def rational_rotation(rng, d, small=False):
+    """exact rotation matrix with rational entries (rows of Fractions); small=True: an angle of about 2-6 degrees
+    (a rotation that a loose `allclose(R, identity)` shortcut would mistake for the identity)"""
     if d == 2:
-        while True:
+        if small:
+            a, b = int(rng.integers(20, 61)), int(rng.choice([-1, 1]))
+        else:
             a, b = (int(x) for x in rng.integers(-6, 7, size=2))
-            if a * a + b * b:
-                break
+            if a * a + b * b == 0:
+                a = 1
         n = a * a + b * b
         return [[Fraction(a * a - b * b, n), Fraction(-2 * a * b, n)], [Fraction(2 * a * b, n), Fraction(a * a - b * b, n)]]
-    while True:
+    if small:
+        w = int(rng.integers(20, 41))
+        x, y, z = (int(v) for v in rng.integers(-1, 2, size=3))
+        if x == y == z == 0:
+            z = 1
+    else:
         w, x, y, z = (int(v) for v in rng.integers(-4, 5, size=4))
-        n = w * w + x * x + y * y + z * z
-        if n:
-            break
+        if w == x == y == z == 0:
+            w = 1
+    n = w * w + x * x + y * y + z * z
     F = Fraction
     return [[F(w * w + x * x - y * y - z * z, n), F(2 * (x * y - w * z), n), F(2 * (x * z + w * y), n)],
             [F(2 * (x * y + w * z), n), F(w * w - x * x + y * y - z * z, n), F(2 * (y * z - w * x), n)],
@@ -116,6 +140,86 @@ def unrat_vec(v):
 
 
 # ----------------------------------------------------------------------------------------------
+# presentation of arguments: the same values handed over in another memory layout / dtype / container
+# ----------------------------------------------------------------------------------------------
+IN_LAYOUTS = ("C", "F", "moved", "strided", "reversed", "offset", "readonly", "memmap")
+OUT_LAYOUTS = ("C", "F", "moved", "strided", "reversed", "offset")
+_mm_count = [0]
+
+
+def present(a, layout):
+    """an array with the values, shape and dtype of `a` in the requested memory layout"""
+    a = np.asarray(a)
+    nd = a.ndim
+    if layout in (None, "C"):
+        return np.array(a, order="C", copy=True)
+    if layout == "F":
+        return np.array(a, order="F", copy=True)
+    if layout == "moved":       # axis-permuted view of a C-ordered block: neither C- nor F-contiguous in 3-D
+        return np.moveaxis(np.array(np.moveaxis(a, 0, -1), order="C", copy=True), -1, 0)
+    if layout == "strided":     # every second element of a larger block
+        big = np.full(tuple(2 * s + 1 for s in a.shape), 99, dtype=a.dtype)
+        v = big[tuple(slice(1, 2 * s + 1, 2) for s in a.shape)]
+        v[...] = a
+        return v
+    if layout == "reversed":    # negative strides
+        sl = (slice(None, None, -1),) * nd
+        return np.array(a[sl], order="C", copy=True)[sl]
+    if layout == "offset":      # interior window of a larger block
+        big = np.full(tuple(s + 3 for s in a.shape), 99, dtype=a.dtype)
+        v = big[tuple(slice(1 + (i % 2), 1 + (i % 2) + s) for i, s in enumerate(a.shape))]
+        v[...] = a
+        return v
+    if layout == "readonly":
+        b = np.array(a, order="C", copy=True)
+        b.setflags(write=False)
+        return b
+    if layout == "memmap":      # read-only memory map, as Density.from_file(use_memmap=True) hands out
+        import os
+        from pv import env
+        _mm_count[0] += 1
+        path = os.path.join(env.scratch(), f"c06_mm_{os.getpid()}_{_mm_count[0]}.bin")
+        w = np.memmap(path, dtype=a.dtype, mode="w+", shape=a.shape)
+        w[...] = a
+        w.flush()
+        del w
+        r = np.memmap(path, dtype=a.dtype, mode="r", shape=a.shape)
+        os.unlink(path)         # the mapping stays valid; nothing accumulates in the scratch directory
+        return r
+    raise ValueError(layout)
+
+
+def present_small(v, dtype="float64", layout="C"):
+    """rotation matrices / translation vectors: dtype and layout (a window of a larger array for 'offset')"""
+    v = np.array(v, dtype=np.dtype(dtype))
+    if layout == "F":
+        return np.array(v, order="F", copy=True)
+    if layout == "offset":
+        big = np.full(tuple(s + 2 for s in v.shape), 9, dtype=v.dtype)
+        w = big[tuple(slice(1, 1 + s) for s in v.shape)]
+        w[...] = v
+        return w
+    if layout == "strided":
+        big = np.full(tuple(2 * s for s in v.shape), 9, dtype=v.dtype)
+        w = big[tuple(slice(0, 2 * s, 2) for s in v.shape)]
+        w[...] = v
+        return w
+    return v
+
+
+_B64 = []
+
+
+def _backend(via):
+    if via == "backend64":      # precision selected through the backend's constructor arguments
+        if not _B64:
+            from tme.backends.npfftw_backend import NumpyFFTWBackend
+            _B64.append(NumpyFFTWBackend(float_dtype=np.float64, complex_dtype=np.complex128))
+        return _B64[0]
+    return _be()
+
+
+# ----------------------------------------------------------------------------------------------
 # independent statement of the property (plain numpy; nothing from the model)
 # ----------------------------------------------------------------------------------------------
 def spec_forward_grid(a, R, t, after=False):
@@ -151,71 +255,121 @@ def _be():
     return be
 
 
+def _grid_values(inp):
+    """integer voxel values of a grid case (data + offset), its scale 2^k and the dtype handed to the API"""
+    form = inp.get("form") or {}
+    shape = tuple(inp["shape"])
+    ints = np.array(inp["data"], dtype=np.int64).reshape(shape) + int(form.get("offset", 0))
+    dt = np.dtype(form.get("dtype", "float32"))
+    scale = float(2.0 ** int(form.get("scale_exp", 0))) if dt.kind == "f" else 1.0
+    return form, ints, scale, dt
+
+
 def case_grid(ctx, inp, model=True):
-    """grid group through NumpyFFTWBackend.rigid_transform(use_geometric_center=True) (or Density.rigid_transform)"""
-    be = _be()
+    """grid group through NumpyFFTWBackend.rigid_transform(use_geometric_center=True) (or Density.rigid_transform).
+    inp["form"] (optional) says how the arguments are presented: dtype / scale / offset of the data, memory layouts of
+    data, mask, rotation matrix and buffers, dtype of rotation and translation, translation left out."""
     shape, R, t, order = tuple(inp["shape"]), inp["R"], inp["t"], inp["order"]
     d = len(shape)
-    a = np.array(inp["data"], dtype=np.float32).reshape(shape)
-    m = None if inp.get("mask") is None else np.array(inp["mask"], dtype=np.float32).reshape(shape)
-    Rf = np.array(R, dtype=float)
-    tf = np.array(t, dtype=float)
+    form, ints, scale, dt = _grid_values(inp)
+    a = (ints * scale).astype(dt)                    # exact: integers times a power of two
+    a_ref = ints.astype(float)                       # everything below is compared in units of `scale`
+    vmax = max(1.0, float(np.abs(ints).max()))
+    tolg = max(TOL_GRID, 1e-5 * vmax)                # float32 resolution of the largest value (1e-5 = 170 ulp)
+    mdt = np.dtype(form.get("mask_dtype", "float32"))
+    m = None if inp.get("mask") is None else np.array(inp["mask"], dtype=np.int64).reshape(shape).astype(mdt)
+    m_ref = None if m is None else np.array(inp["mask"], dtype=float).reshape(shape)
+    mask_exact = m is None or mdt.kind == "f" or order <= 1     # integer / bool masks: smoothed values get cast
+    Rf = present_small(R, form.get("R_dtype", "float64"), form.get("R_layout", "C"))
+    R0 = np.array(Rf, copy=True)
+    t_form = form.get("t_form", "float64")
+    tf = None if t_form == "omit" else np.array(t, dtype=np.dtype(t_form))
+    t0 = None if tf is None else tf.copy()
     via = inp.get("via", "backend")
+    bk = _backend(via)
+    a_in = present(a, form.get("layout", "C"))
+    m_in = None if m is None else present(m, form.get("mask_layout", "C"))
+    full_out = full_om = None
+    bufshape = tuple(inp.get("bufshape") or shape)
+    corner = tuple(slice(0, s_) for s_ in shape)
     if via == "density":
         from tme import Density
         kw = {} if inp.get("defaults") else {"use_geometric_center": True}
         if not inp.get("defaults") or order != 3:
             kw["order"] = order
-        dens = Density(a.copy(), origin=np.zeros(d), sampling_rate=np.ones(d))
-        res = dens.rigid_transform(rotation_matrix=Rf, translation=tf, **kw)
+        if tf is not None:
+            kw["translation"] = tf
+        origin = np.array(inp.get("origin") or [0.0] * d, dtype=float)
+        rate = np.array(inp.get("sampling_rate") or [1.0] * d, dtype=float)
+        dens = Density(a_in, origin=origin.copy(), sampling_rate=rate.copy())
+        res = dens.rigid_transform(rotation_matrix=Rf, **kw)
         out, om = res.data, None
-        ok_meta = np.allclose(res.origin, dens.origin) and np.allclose(res.sampling_rate, dens.sampling_rate)
-        ctx.spec("Density.rigid_transform keeps origin and sampling rate", inp, bool(ok_meta), key="density:metadata")
+        ok_meta = np.allclose(res.origin, origin) and np.allclose(res.sampling_rate, rate) \
+            and np.allclose(dens.origin, origin) and np.allclose(dens.sampling_rate, rate)
+        ctx.spec("Density.rigid_transform keeps origin and sampling rate", inp, bool(ok_meta),
+                 {"origin": np.asarray(res.origin).tolist(), "sampling_rate": np.asarray(res.sampling_rate).tolist()},
+                 key="density:metadata")
+        ctx.spec("inputs are not modified", inp, res is not dens and np.array_equal(np.asarray(dens.data), a),
+                 key="density:input-mutated")
     else:
         kw = {}
-        bufshape = tuple(inp.get("bufshape") or shape)
-        if inp.get("buffers"):
+        which = inp.get("buffers")
+        which = "both" if which is True else which
+        oform = inp.get("out_form") or {}
+        if which in ("both", "out"):
             # caller-supplied buffers (possibly larger, as the padded template buffers of the scoring loops),
             # deliberately dirty: every voxel of the leading corner must be overwritten
-            kw["out"] = np.full(bufshape, 77, dtype=np.float32)
-            if m is not None:
-                kw["out_mask"] = np.full(bufshape, 55, dtype=np.float32)
-        a_in, m_in = a.copy(), (None if m is None else m.copy())
-        out, om = be.rigid_transform(a_in, Rf, arr_mask=m_in, translation=tf, use_geometric_center=True, order=order, **kw)
-        ctx.spec("inputs are not modified", inp, np.array_equal(a_in, a) and (m is None or np.array_equal(m_in, m)),
-                 key="array:input-mutated")
-        if inp.get("buffers"):
-            ctx.spec("result is written into the supplied buffers", inp, out is kw["out"] and (m is None or om is kw["out_mask"]),
-                     key="array:buffers")
-            if bufshape != shape:
-                corner = tuple(slice(0, s_) for s_ in shape)
-                for nm, full, fillv in (("out", out, 77), ("out_mask", om, 55)):
-                    if full is None:
-                        continue
-                    rest = np.array(full, dtype=float)
-                    rest[corner] = fillv
-                    untouched = bool(np.all(rest == fillv)) or bool(np.all(np.where(rest == fillv, 0, rest) == 0))
-                    ctx.spec("larger buffer: only the leading corner [0, shape) is written", inp, untouched,
-                             key="array:buffer-corner")
-                full_out, full_om = out, om
-                out, om = out[corner], (None if om is None else om[corner])
-    out = np.asarray(out, dtype=float)
+            kw["out"] = present(np.full(bufshape, 77, dtype=np.dtype(oform.get("dtype", dt.name))), oform.get("layout", "C"))
+        if m is not None and which in ("both", "mask"):
+            kw["out_mask"] = present(np.full(bufshape if which == "both" else shape, 55,
+                                         dtype=np.dtype(oform.get("mask_dtype", mdt.name if mdt.kind == "f" else "float32"))),
+                                     oform.get("mask_layout", "C"))
+        if tf is not None:
+            kw["translation"] = tf
+        out, om = bk.rigid_transform(a_in, Rf, arr_mask=m_in, use_geometric_center=True, order=order, **kw)
+        ctx.spec("inputs are not modified", inp, np.array_equal(np.asarray(a_in), a) and (m is None or np.array_equal(np.asarray(m_in), m))
+                 and np.array_equal(Rf, R0) and (tf is None or np.array_equal(tf, t0)), key="array:input-mutated")
+        if "out" in kw or "out_mask" in kw:
+            ctx.spec("result is written into the supplied buffers", inp,
+                     ("out" not in kw or out is kw["out"]) and ("out_mask" not in kw or om is kw["out_mask"]), key="array:buffers")
+        ctx.spec("a mask is returned exactly when one is passed", inp, (om is None) == (m is None), key="array:mask-returned")
+        for nm, full, fillv in (("out", out if "out" in kw else None, 77), ("out_mask", om if "out_mask" in kw else None, 55)):
+            if full is None or tuple(full.shape) == shape:
+                continue
+            rest = np.array(full, dtype=float)
+            rest[corner] = fillv
+            ctx.spec("larger buffer: only the leading corner [0, shape) is written", inp, bool(np.all(rest == fillv)),
+                     {"buffer": nm}, key="array:buffer-corner")
+            if nm == "out":
+                full_out = np.array(full, dtype=float)
+                full_out[corner] /= scale
+        out = out[corner]
+        om = None if om is None else om[corner]
+    out = np.asarray(out, dtype=float) / scale
     rinv = transpose(R)
-    contract = np.allclose(np.linalg.inv(Rf), np.array(rinv, float), atol=1e-12)
+    contract = np.allclose(np.linalg.inv(np.array(R, float)), np.array(rinv, float), atol=1e-12)
     ctx.agree("linalg.inv contract (signed permutation: inverse = transpose)", inp, bool(contract), True)
     if model:
-        big = via == "backend" and inp.get("buffers") and tuple(inp.get("bufshape") or shape) != shape
-        mo = ctx.driver.call("c06.grid", shape=list(shape), data=[int(v) for v in a.reshape(-1)], rinv=rinv,
-                             t=[int(v) for v in t], mask=None if m is None else [int(v) for v in m.reshape(-1)])
-        if big:
-            mob = ctx.driver.call("c06.grid", shape=list(shape), data=[int(v) for v in a.reshape(-1)], rinv=rinv,
-                                  t=[int(v) for v in t], mask=None, bufshape=list(inp["bufshape"]), fill=77)
-            fb = np.asarray(full_out, float).reshape(-1)
+        mo = ctx.driver.call("c06.grid", shape=list(shape), data=[int(v) for v in ints.reshape(-1)], rinv=rinv,
+                             t=[int(v) for v in t], mask=None if m is None else [int(v) for v in m_ref.reshape(-1)])
+        if full_out is not None:
+            mob = ctx.driver.call("c06.grid", shape=list(shape), data=[int(v) for v in ints.reshape(-1)], rinv=rinv,
+                                  t=[int(v) for v in t], mask=None, bufshape=list(bufshape), fill=77)
+            fb = full_out.reshape(-1)
             ctx.agree("rigid_transform(out=larger buffer) == rigidGridInto", inp,
                       [None if mv is None else int(np.rint(v)) for v, mv in zip(fb, mob["out"])], mob["out"])
+        if via == "density" and dt.kind == "f" and None not in mo["out"]:
+            # the wrapper's tail: voxels below eps * max|out| are set to 0 (model: cleanNoise; a no-op unless the data's
+            # dynamic range exceeds 1/eps - the high-dynamic-range stream)
+            e = np.finfo(dt)
+            cl = ctx.driver.call("c06.clean", eps=[1, 2 ** int(-np.log2(float(e.eps)))], data=mo["out"])
+            cleaned = [int(unfr(q)) for q in cl]
+            if cleaned != mo["out"]:
+                ctx.count("grid:density:clean-up-active")
+            mo["out"] = cleaned
         flat = out.reshape(-1)
         impl = [None if mv is None else int(np.rint(v)) for v, mv in zip(flat, mo["out"])]
-        near = all(mv is None or abs(v - np.rint(v)) <= TOL_GRID for v, mv in zip(flat, mo["out"]))
+        near = all(mv is None or abs(v - np.rint(v)) <= tolg for v, mv in zip(flat, mo["out"]))
         ctx.agree("rigid_transform(grid) == gridTransform", inp, {"out": impl, "integral": bool(near)},
                   {"out": mo["out"], "integral": True})
         if om is not None and order <= 1:
@@ -224,56 +378,58 @@ def case_grid(ctx, inp, model=True):
             nearm = all(mv is None or abs(v - np.rint(v)) <= TOL_GRID for v, mv in zip(fm, mo["mask"]))
             ctx.agree("rigid_transform(grid, mask) == gridTransform", inp, {"mask": implm, "integral": bool(nearm)},
                       {"mask": mo["mask"], "integral": True})
-        if om is not None and order >= 2:
+        if om is not None and order >= 2 and mask_exact:
             # "data prefiltered, mask not": the mask output is the B-spline smoothing of the mask, moved by the same map
-            mm = ctx.driver.call("c06.gridmask", shape=list(shape), mask=[int(v) for v in m.reshape(-1)], rinv=rinv,
+            mm = ctx.driver.call("c06.gridmask", shape=list(shape), mask=[int(v) for v in m_ref.reshape(-1)], rinv=rinv,
                                  t=[int(v) for v in t], order=order)
             fm = np.asarray(om, float).reshape(-1)
             bad = [i for i, (v, q) in enumerate(zip(fm, mm)) if q is not None and abs(v - unfr(q)) > 1e-5]
             ctx.agree("rigid_transform(grid, mask, order>=2) == maskGrid (unprefiltered spline)", inp, bad[:3], [])
         ctx.count("grid:model-" + ("exact" if None not in mo["out"] else "partly-off-grid"))
     # ---- property clauses on the implementation's output
-    want = spec_forward_grid(a, R, t)
-    is_id = Rf.tolist() == np.eye(d).tolist()
+    want = spec_forward_grid(a_ref, R, t)
+    is_id = np.array(R).tolist() == np.eye(d, dtype=int).tolist()
     zero_t = not any(t)
     if want is not None:
         err = float(np.abs(out - want).max())
         if is_id and zero_t:
-            ctx.spec("identity leaves the array unchanged", inp, err <= TOL_GRID, {"maxerr": err}, key="array:identity")
+            ctx.spec("identity leaves the array unchanged", inp, err <= tolg, {"maxerr": err, "in units of": scale}, key="array:identity")
         elif is_id:
-            ctx.spec("integer translation with the identity is an exact shift with zero fill", inp, err <= TOL_GRID,
-                     {"maxerr": err, "first_bad": _first_bad(out, want)}, key="array:int-translation")
+            ctx.spec("integer translation with the identity is an exact shift with zero fill", inp, err <= tolg,
+                     {"maxerr": err, "first_bad": _first_bad(out, want, tolg)}, key="array:int-translation")
         elif zero_t:
             ctx.spec("axis-aligned rotation is an exact permutation of voxels: value at x lands at R(x-c)+c", inp,
-                     err <= TOL_GRID, {"maxerr": err, "first_bad": _first_bad(out, want)}, key="array:grid-rotation")
+                     err <= tolg, {"maxerr": err, "first_bad": _first_bad(out, want, tolg)}, key="array:grid-rotation")
             if leaves_invariant(R, shape):
-                same = np.allclose(np.sort(out.reshape(-1)), np.sort(a.reshape(-1).astype(float)), atol=TOL_GRID)
+                same = np.allclose(np.sort(out.reshape(-1)), np.sort(a_ref.reshape(-1)), rtol=0, atol=tolg)
                 ctx.spec("grid rotation preserves the multiset of voxel values", inp, bool(same), key="array:grid-rotation")
         else:
             # the property fixes the rule for t = 0 and for R = 1 only; composed, today's code translates in the input
             # frame (R(x+t-c)+c, what the model mirrors).  Translating after the rotation (R(x-c)+c+t, the coordinate
             # version's convention) would also satisfy the text, so the clause accepts either.
-            want2 = spec_forward_grid(a, R, t, after=True)
+            want2 = spec_forward_grid(a_ref, R, t, after=True)
             err2 = float("inf") if want2 is None else float(np.abs(out - want2).max())
-            ctx.spec("grid rotation with integer translation is an exact permutation + shift", inp, min(err, err2) <= TOL_GRID,
-                     {"maxerr": min(err, err2), "first_bad": _first_bad(out, want)}, key="array:grid-rotation+translation")
-            ctx.count("grid:composed:" + ("translate-then-rotate" if err <= TOL_GRID else "rotate-then-translate" if err2 <= TOL_GRID else "neither"))
-    if om is not None:
+            ctx.spec("grid rotation with integer translation is an exact permutation + shift", inp, min(err, err2) <= tolg,
+                     {"maxerr": min(err, err2), "first_bad": _first_bad(out, want, tolg)}, key="array:grid-rotation+translation")
+            ctx.count("grid:composed:" + ("translate-then-rotate" if err <= tolg else "rotate-then-translate" if err2 <= tolg else "neither"))
+    if om is not None and not mask_exact:
+        ctx.count("grid:mask-clause-skipped(integer mask at order>=2)")
+    elif om is not None:
         om = np.asarray(om, float)
         if order <= 1:
-            wm = spec_forward_grid(m, R, t)
+            wm = spec_forward_grid(m_ref, R, t)
             if wm is not None:
                 errm = float(np.abs(om - wm).max())
-                wm2 = spec_forward_grid(m, R, t, after=True)
+                wm2 = spec_forward_grid(m_ref, R, t, after=True)
                 if wm2 is not None and float(np.abs(om - wm2).max()) < errm and want is not None \
-                        and float(np.abs(out - spec_forward_grid(a, R, t, after=True)).max()) <= TOL_GRID:
+                        and float(np.abs(out - spec_forward_grid(a_ref, R, t, after=True)).max()) <= tolg:
                     errm, wm = float(np.abs(om - wm2).max()), wm2     # data follows the other composition: so must the mask
                 ctx.spec("mask is moved by the same map as the data", inp, errm <= TOL_GRID,
                          {"maxerr": errm, "first_bad": _first_bad(om, wm)}, key="array:mask")
         else:
             # no prefilter on the mask: it is the B-spline smoothing of the moved mask; the smoothing kernel is
             # symmetric and the same on every axis, so it commutes with the grid group and with integer shifts
-            _, om0 = be.rigid_transform(a.copy(), np.eye(d), arr_mask=m.copy(), translation=np.zeros(d),
+            _, om0 = bk.rigid_transform(a.copy(), np.eye(d), arr_mask=m.copy(), translation=np.zeros(d),
                                         use_geometric_center=True, order=order)
             wm = spec_forward_grid(np.asarray(om0, float), R, t)
             if wm is not None and zero_t and leaves_invariant(R, shape):
@@ -281,17 +437,28 @@ def case_grid(ctx, inp, model=True):
                 ctx.spec("mask is moved by the same map as the data", inp, errm <= TOL_GRID,
                          {"maxerr": errm, "first_bad": _first_bad(om, wm)}, key="array:mask")
     if not (is_id and zero_t):
-        ctx.distinct(("grid", shape, R, t, order, m is not None, via, bool(inp.get("buffers"))))
+        ctx.distinct(("grid", shape, R, t, order, m is not None, via, inp.get("buffers") or False, sorted(form.items()),
+                      sorted((inp.get("out_form") or {}).items())))
     ctx.count(f"grid:{d}D:" + "".join("o" if s % 2 else "e" for s in shape))
     ctx.count(f"grid:order={order}")
     ctx.count("grid:" + ("mask" if m is not None else "nomask"))
     ctx.count("grid:via=" + via)
-    if inp.get("bufshape") and tuple(inp["bufshape"]) != shape:
+    if bufshape != shape:
         ctx.count("grid:larger-buffer")
+    if form:
+        ctx.count("grid:layout=" + form.get("layout", "C"))
+        ctx.count("grid:dtype=" + dt.name)
+        ctx.count(f"grid:scale=2^{form.get('scale_exp', 0)}:offset={form.get('offset', 0)}")
+        ctx.count("grid:R=" + form.get("R_dtype", "float64") + "/" + form.get("R_layout", "C"))
+        ctx.count("grid:t=" + t_form)
+    if inp.get("out_form"):
+        ctx.count("grid:out-layout=" + inp["out_form"].get("layout", "C"))
+    if inp.get("buffers") in ("out", "mask"):
+        ctx.count("grid:buffers=" + inp["buffers"] + "-only")
 
 
-def _first_bad(out, want):
-    bad = np.argwhere(np.abs(np.asarray(out, float) - want) > TOL_GRID)
+def _first_bad(out, want, tol=TOL_GRID):
+    bad = np.argwhere(np.abs(np.asarray(out, float) - want) > tol)
     if len(bad) == 0:
         return None
     i = tuple(int(v) for v in bad[0])
@@ -340,70 +507,148 @@ def case_matrix(ctx, inp, model=True):
     ctx.distinct(("matrix", inp["R"], inp["t"], inp["c"]))
 
 
+def _scipy_linear(arr, rinvf, c, t):
+    """plain statement of the pull-back at order 1 in float64: out[o] = lin-interp(arr, R^-1(o-c)+c-t), 0 outside"""
+    from scipy.ndimage import affine_transform
+    off = c - rinvf @ c - t
+    return affine_transform(np.asarray(arr, dtype=np.float64), rinvf, offset=off, order=1, mode="constant", cval=0.0, prefilter=False)
+
+
 def case_linear(ctx, inp, model=True):
     """arbitrary exact rotation + dyadic translation at order 1: voxel-by-voxel against the exact model.
-    centre: geometric (use_geometric_center=True) or centre of mass (the backend's default)."""
-    be = _be()
+    centre: geometric (use_geometric_center=True) or centre of mass (the backend's default); optionally with a mask
+    (moved by the same map: same centre as the data), other layouts / dtypes / scales, through Density."""
     shape = tuple(inp["shape"])
     d = len(shape)
-    a = np.array(inp["data"], dtype=np.float32).reshape(shape)
+    form, ints, scale, dt = _grid_values(inp)
+    a = (ints * scale).astype(dt)
+    a_ref = ints.astype(float)
     Rq, t = unrat_rows(inp["R"]), unrat_vec(inp["t"])
     rinvq = transpose(Rq)
-    Rf, tf = fl(Rq), np.array([float(x) for x in t])
+    Rf = present_small(fl(Rq), form.get("R_dtype", "float64"), form.get("R_layout", "C"))
+    tf = np.array([float(x) for x in t])
     geo = inp["geo"]
-    kw = {"use_geometric_center": True} if geo else ({} if inp.get("defaults") else {"use_geometric_center": False})
-    out, _ = be.rigid_transform(a.copy(), Rf, translation=tf, order=1, **kw)
-    out = np.asarray(out, float)
-    contract = np.allclose(np.linalg.inv(Rf), fl(rinvq), atol=1e-9)
+    via = inp.get("via", "backend")
+    bk = _backend(via)
+    m = None if inp.get("mask") is None else np.array(inp["mask"], dtype=np.float32).reshape(shape)
+    a_in = present(a, form.get("layout", "C"))
+    om = None
+    if via == "density":
+        from tme import Density
+        dens = Density(a_in, origin=np.arange(1, d + 1, dtype=float), sampling_rate=np.full(d, 1.5))
+        res = dens.rigid_transform(rotation_matrix=Rf, translation=tf, order=1, use_geometric_center=geo)
+        out = res.data
+        ctx.spec("inputs are not modified", inp, res is not dens and np.array_equal(np.asarray(dens.data), a), key="density:input-mutated")
+    else:
+        kw = {"use_geometric_center": True} if geo else ({} if inp.get("defaults") else {"use_geometric_center": False})
+        out, om = bk.rigid_transform(a_in, Rf, arr_mask=None if m is None else m.copy(), translation=tf, order=1, **kw)
+        ctx.spec("inputs are not modified", inp, np.array_equal(np.asarray(a_in), a), key="array:input-mutated")
+    out = np.asarray(out, float) / scale
+    contract = np.allclose(np.linalg.inv(fl(Rq)), fl(rinvq), atol=1e-9)
     ctx.agree("linalg.inv contract (rotation: inverse = transpose)", inp, bool(contract), True)
+    n1 = np.array(shape) - 1
+    vmax = max(1.0, float(np.abs(ints).max()))
+    tol = TOL_LIN * vmax * (1 if geo else 4)
+    eband = 1e-3 if geo else 2e-3 * max(shape)
+
+    def faces(src):
+        # float32 matrix (and, for the centre of mass, a float32 centre): a source on a face of the box can fall on either
+        # side of the zero-fill discontinuity; those voxels are skipped (and counted)
+        return np.any((np.abs(src) < eband) | (np.abs(src - n1) < eband), axis=-1)
     if model:
         cgeo = [Fraction(s - 1, 2) for s in shape]
-        mo = ctx.driver.call("c06.linear", shape=list(shape), data=[int(v) for v in a.reshape(-1)], rinv=frm(rinvq),
+        mo = ctx.driver.call("c06.linear", shape=list(shape), data=[int(v) for v in ints.reshape(-1)], rinv=frm(rinvq),
                              t=frs(t), c=frs(cgeo) if geo else None)
         if not geo:
             cm = np.array([unfr(x) for x in mo["c"]])
-            ci = np.asarray(be.center_of_mass(a, cutoff=0), float)
-            ctx.agree("center_of_mass(cutoff=0) == centerOfMass", inp, bool(np.abs(cm - ci).max() <= 1e-4), True)
+            ci = np.asarray(bk.center_of_mass(a, cutoff=0), float)
+            # float32 accumulation of n voxels: eps32 * n * max coordinate (error model), at least the historic 1e-4
+            ctol = max(1e-4, 6e-8 * a.size * max(shape))
+            ctx.agree("center_of_mass(cutoff=0) == centerOfMass", inp, bool(np.abs(cm - ci).max() <= ctol), True)
         want = np.array([unfr(x) for x in mo["out"]]).reshape(shape)
         src = np.array([[unfr(x) for x in r] for r in mo["src"]]).reshape(shape + (d,))
-        n1 = np.array(shape) - 1
-        # float32 matrix: a source on a face of the box can fall on either side; skip those voxels
-        edge = np.any((np.abs(src) < 1e-3) | (np.abs(src - n1) < 1e-3), axis=-1)
-        if not geo:
-            edge |= np.any((np.abs(src) < 2e-3 * max(shape)) | (np.abs(src - n1) < 2e-3 * max(shape)), axis=-1)
+        edge = faces(src)
         diff = np.abs(out - want)
         diff[edge] = 0
-        tol = TOL_LIN * max(1.0, float(np.abs(a).max())) * (1 if geo else 4)
         ctx.agree("rigid_transform(order=1) == linInterp∘affineSrc∘rigidMatrix", inp,
                   bool(diff.max() <= tol), True)
+        if om is not None:
+            mm = ctx.driver.call("c06.linear", shape=list(shape), data=[int(v) for v in m.reshape(-1)], rinv=frm(rinvq),
+                                 t=frs(t), c=mo["c"])
+            wantm = np.array([unfr(x) for x in mm["out"]]).reshape(shape)
+            dm = np.abs(np.asarray(om, float) - wantm)
+            dm[edge] = 0
+            ctx.agree("rigid_transform(order=1, mask) == linInterp at the data's sources", inp, bool(dm.max() <= TOL_LIN * (1 if geo else 4)), True)
         ctx.count("linear:skipped-edge-voxels", int(edge.sum()))
         ctx.count("linear:compared-voxels", int((~edge).sum()))
+    # ---- property clauses (plain numpy / scipy in float64, nothing from the model): the value at x moves to R(x+t-c)+c,
+    # c the geometric centre or - backend default - the centre of mass of the positive voxels; the mask follows the data
+    c = n1 / 2.0 if geo else com(np.where(a_ref > 0, a_ref, 0.0))
+    rinvf = fl(rinvq)
+    g = np.indices(shape).reshape(d, -1).astype(float)
+    srcf = (rinvf @ (g - c[:, None]) + (c - tf)[:, None]).T.reshape(shape + (d,))
+    edge = faces(srcf)
+    wantf = _scipy_linear(a_ref, rinvf, c, tf)
+    df = np.abs(out - wantf)
+    df[edge] = 0
+    ctx.spec("arbitrary rotation at order 1: every voxel is the linear interpolation at R^-1(o-c)+c-t", inp, bool(df.max() <= tol),
+             {"maxerr": float(df.max()), "tol": tol, "at": [int(v) for v in np.unravel_index(int(df.argmax()), shape)]},
+             key="array:linear")
+    if om is not None:
+        wm = _scipy_linear(m, rinvf, c, tf)
+        dm = np.abs(np.asarray(om, float) - wm)
+        dm[edge] = 0
+        ctx.spec("mask is moved by the same map as the data (arbitrary rotation, order 1)", inp, bool(dm.max() <= TOL_LIN * (1 if geo else 4)),
+                 {"maxerr": float(dm.max()), "at": [int(v) for v in np.unravel_index(int(dm.argmax()), shape)]}, key="array:mask-linear")
     ctx.count(f"linear:{d}D:" + ("geometric" if geo else "mass"))
-    ctx.distinct(("linear", shape, inp["R"], inp["t"], geo))
+    ctx.count("linear:via=" + via)
+    if m is not None:
+        ctx.count("linear:mask")
+    if inp.get("small"):
+        ctx.count("linear:small-angle")
+    if form:
+        ctx.count("linear:layout=" + form.get("layout", "C"))
+        ctx.count("linear:dtype=" + dt.name + f":scale=2^{form.get('scale_exp', 0)}")
+    ctx.distinct(("linear", shape, inp["R"], inp["t"], geo, via, m is not None, sorted(form.items())))
 
 
 def case_com(ctx, inp, model=True):
-    """arbitrary proper rotation, any order: the centre of mass of a blob follows R(x + t - c) + c (data and mask)"""
-    be = _be()
+    """arbitrary proper rotation, any order: the centre of mass of a blob follows R(x + t - c) + c (data and mask).
+    Optional: absolute intensity scale (any float), float64 data, memory layout, Density.rigid_transform, and the
+    backend's default centre (centre of mass: c = x0, so the blob's centre moves by R t resp. t)."""
     shape = tuple(inp["shape"])
     d = len(shape)
     Rq, t = unrat_rows(inp["R"]), unrat_vec(inp["t"])
     Rf, tf = fl(Rq), np.array([float(x) for x in t])
     order = inp["order"]
+    form = inp.get("form") or {}
+    dt = np.dtype(form.get("dtype", "float32"))
+    amp = float(form.get("amp", 1.0))
+    geo = inp.get("geo", True)
+    via = inp.get("via", "backend")
+    bk = _backend(via)
     g = np.indices(shape).astype(float)
     p = np.array(inp["blob"], float)
-    a = np.exp(-sum((g[i] - p[i]) ** 2 for i in range(d)) / (2 * inp["sigma"] ** 2)).astype(np.float32)
+    a = np.exp(-sum((g[i] - p[i]) ** 2 for i in range(d)) / (2 * inp["sigma"] ** 2))
     q = np.array(inp["blob2"], float)
-    a = a + 0.5 * np.exp(-sum((g[i] - q[i]) ** 2 for i in range(d)) / (2 * inp["sigma"] ** 2)).astype(np.float32)
-    m = (a > 0.05).astype(np.float32) if inp["mask"] else None
-    out, om = be.rigid_transform(a.copy(), Rf, arr_mask=None if m is None else m.copy(), translation=tf,
-                                 use_geometric_center=True, order=order)
-    c = (np.array(shape) - 1) / 2
+    a = a + 0.5 * np.exp(-sum((g[i] - q[i]) ** 2 for i in range(d)) / (2 * inp["sigma"] ** 2))
+    a = (a * amp).astype(dt)
+    m = (a > 0.05 * amp).astype(np.float32) if inp["mask"] else None
+    a_in = present(a, form.get("layout", "C"))
+    if via == "density":
+        from tme import Density
+        res = Density(a_in, origin=np.zeros(d), sampling_rate=np.full(d, 2.0)).rigid_transform(
+            rotation_matrix=Rf, translation=tf, order=order, use_geometric_center=geo)
+        out, om, m = res.data, None, None
+    else:
+        out, om = bk.rigid_transform(a_in, Rf, arr_mask=None if m is None else m.copy(), translation=tf,
+                                     use_geometric_center=geo, order=order)
     x0 = com(a)
+    c = (np.array(shape) - 1) / 2 if geo else x0      # default centre: the centre of mass itself (all values positive)
     want = Rf @ (x0 + tf - c) + c
     got = com(np.asarray(out, float))
     err = min(float(np.abs(got - want).max()), float(np.abs(got - (Rf @ (x0 - c) + c + tf)).max()))   # either composition
-    mass = float(np.asarray(out, float).sum() / a.sum())
+    mass = float(np.asarray(out, float).sum() / np.asarray(a, float).sum())
     ctx.spec("arbitrary rotation: centre of mass moves by R(x-c)+c within interpolation error", inp,
              err <= TOL_COM[order] and abs(mass - 1) <= (0.2 if order == 0 else 0.05), {"err": err, "mass_ratio": mass, "got": got.tolist(), "want": want.tolist()},
              key="array:com")
@@ -418,8 +663,14 @@ def case_com(ctx, inp, model=True):
         # count how discriminating the case is
         alt = Rf.T @ (x0 + tf - c) + c
         ctx.count("com:discriminates-inverse" if np.abs(alt - want).max() > 4 * TOL_COM[order] else "com:symmetric")
+        ctx.count("com:discriminates-identity" if np.abs(x0 + tf - want).max() > 2 * TOL_COM[order] else "com:near-identity")
     ctx.count(f"com:{d}D:order={order}")
-    ctx.distinct(("com", shape, inp["R"], inp["t"], order, inp["blob"]))
+    ctx.count("com:centre=" + ("geometric" if geo else "mass") + ":via=" + via)
+    if form:
+        ctx.count(f"com:amp={amp:g}")
+        ctx.count(f"com:dtype={dt.name}")
+        ctx.count(f"com:layout={form.get('layout', 'C')}")
+    ctx.distinct(("com", shape, inp["R"], inp["t"], order, inp["blob"], geo, via, sorted(form.items())))
 
 
 def _structure(coords):
@@ -427,50 +678,79 @@ def _structure(coords):
     n = len(coords)
     el = ["C", "N", "O", "S"]
     return Structure(record_type=["ATOM"] * n, atom_serial_number=list(range(n)), atom_name=["CA"] * n,
-                     atom_coordinate=np.array(coords, dtype=np.float64), alternate_location_indicator=["."] * n,
+                     atom_coordinate=np.array(coords), alternate_location_indicator=["."] * n,
                      residue_name=["GLY"] * n, chain_identifier=["A"] * n, residue_sequence_number=list(range(n)),
                      code_for_residue_insertion=["?"] * n, occupancy=[1.0] * n, temperature_factor=[0.0] * n,
                      segment_identifier=["1"] * n, element_symbol=[el[i % 4] for i in range(n)], charge=["?"] * n, metadata={})
 
 
+def _coords_points(inp):
+    """points of a coordinate case as exact rationals (quarters); large sets are regenerated from a recorded seed"""
+    if inp.get("xgen"):
+        g = inp["xgen"]
+        r = np.random.default_rng(int(g["seed"]))
+        raw = r.integers(-80, 81, size=(int(g["N"]), int(g["d"])))
+        return [[Fraction(int(v), 4) for v in row] for row in raw]
+    return [unrat_vec(p) for p in inp["x"]]
+
+
 def case_coords(ctx, inp, model=True):
-    """matching_utils.rigid_transform / Structure.rigid_transform"""
+    """matching_utils.rigid_transform / Structure.rigid_transform.  inp["form"] (optional): dtype of coordinates and out
+    (same dtype), memory layouts of coordinates / out / mask buffers / rotation matrix, kind of the translation argument."""
     from tme.matching_utils import rigid_transform as crt
-    X = [unrat_vec(p) for p in inp["x"]]
+    X = _coords_points(inp)
     Mk = [unrat_vec(p) for p in inp.get("maskpts") or []]
     Rq, t = unrat_rows(inp["R"]), unrat_vec(inp["t"])
     center = None if inp.get("center") is None else unrat_vec(inp["center"])
     geo, via = inp["geo"], inp.get("via", "function")
     mismatch = bool(inp.get("dtypeMismatch"))
+    form = inp.get("form") or {}
+    cdt = np.dtype(form.get("dtype", "float64"))
     d = len(Rq)
-    Rf, tf = fl(Rq), np.array([float(v) for v in t])
+    Rf = present_small(fl(Rq), form.get("R_dtype", "float64"), form.get("R_layout", "C"))
+    R0 = Rf.copy()
+    Rf64 = fl(Rq)
+    tf = np.array([float(v) for v in t])
+    tk = form.get("t_kind", "ndarray")
+    targ = tf.copy() if tk == "ndarray" else tf.astype(np.float32) if tk == "float32" else tf.tolist() if tk == "list" else tuple(tf.tolist())
     xs = np.array([[float(v) for v in p] for p in X], dtype=np.float64).T      # (d, N)
     ms = np.array([[float(v) for v in p] for p in Mk], dtype=np.float64).reshape(len(Mk), d).T
+    N = xs.shape[1]
     om = None
     if via == "structure":
-        st = _structure(xs.T)
+        st = _structure(xs.T.astype(cdt))
         kw = {} if inp.get("defaults") else {"use_geometric_center": geo}
-        res = st.rigid_transform(rotation_matrix=Rf, translation=tf, **kw)
+        res = st.rigid_transform(rotation_matrix=Rf, translation=targ, **kw)
         out = np.asarray(res.atom_coordinate, float).T
-        ok = np.array_equal(st.atom_coordinate, xs.T) and list(res.element_symbol) == list(st.element_symbol)
+        ok = res is not st and np.array_equal(st.atom_coordinate, xs.T) and list(res.element_symbol) == list(st.element_symbol) \
+            and list(res.atom_name) == list(st.atom_name) and len(res.atom_coordinate) == N
         ctx.spec("Structure.rigid_transform returns a new structure and leaves the original alone", inp, bool(ok),
                  key="structure:copy")
     else:
-        xin = xs.astype(np.int64) if mismatch else xs.copy()
-        out = np.full(xs.shape, 7.0)
+        xin = present(xs.astype(np.int64) if mismatch else xs.astype(cdt), form.get("layout", "C"))
+        out = present(np.full(xs.shape, 7.0, dtype=cdt), form.get("out_layout", "C"))
         kw = {}
+        msin = None
         if len(Mk):
-            om = np.full(ms.shape, 5.0)
-            kw = {"coordinates_mask": ms.copy(), "out_mask": om}
+            om = present(np.full(ms.shape, 5.0, dtype=cdt), form.get("out_layout", "C"))
+            msin = present(ms.astype(cdt), form.get("layout", "C"))
+            kw = {"coordinates_mask": msin, "out_mask": om}
         if center is not None:
-            kw["center"] = np.array([float(v) for v in center])
+            kw["center"] = np.array([float(v) for v in center], dtype=cdt)
         if not inp.get("defaults"):
             kw["use_geometric_center"] = geo
-        tin = tf.copy()
-        crt(coordinates=xin, rotation_matrix=Rf, out=out, translation=tin, **kw)
-        ctx.spec("inputs are not modified", inp, np.array_equal(xin, xs) and np.array_equal(tin, tf), key="coords:input-mutated")
+        crt(coordinates=xin, rotation_matrix=Rf, out=out, translation=targ, **kw)
+        same_t = np.array_equal(np.asarray(targ, dtype=float), tf.astype(np.float32).astype(float) if tk == "float32" else tf)
+        ctx.spec("inputs are not modified", inp, np.array_equal(np.asarray(xin), xs) and same_t and np.array_equal(Rf, R0)
+                 and (msin is None or np.array_equal(np.asarray(msin), ms)), key="coords:input-mutated")
+        out = np.asarray(out, float)
+        om = None if om is None else np.asarray(om, float)
     scale = 1.0 + float(np.abs(xs).max()) + float(np.abs(tf).max())
-    if model:
+    # float64: 1e-7 / 1e-9 relative as before; float32 (eps 6e-8, a handful of operations, means over N points): 2e-5
+    f32 = cdt == np.float32 or form.get("R_dtype") == "float32" or tk == "float32"
+    tol_m = (2e-5 if f32 else TOL_CO) * scale
+    tol_s = (2e-5 if f32 else 1e-7) * scale
+    if model and N <= 200:
         mo = ctx.driver.call("c06.coords", x=[frs(p) for p in X], R=frm(Rq), t=frs(t),
                              center=None if center is None else frs(center), geo=geo,
                              mask=[frs(p) for p in Mk], dtypeMismatch=mismatch)
@@ -484,49 +764,56 @@ def case_coords(ctx, inp, model=True):
             ctx.count("coords:dtype-mismatch" + (":skipped-near-integer" if skip else ""))
         if geo:
             # `(axis_max - axis_min) // 2` is discontinuous: when the exact extent is an even integer the float
-            # result may fall on either side
+            # result may fall on either side (float32: also when it is within rounding of one)
             ext = [max(col) - min(col) for col in zip(*[[sum(Rq[i][j] * p[j] for j in range(d)) for i in range(d)] for p in X])]
-            skip = any((e / 2).denominator == 1 for e in ext)
+            skip = any((e / 2).denominator == 1 or (f32 and abs(float(e / 2) - round(float(e / 2))) < 1e-3) for e in ext)
             if skip:
                 ctx.count("coords:geo:skipped-floor-tie")
         if not skip:
             ctx.agree("matching_utils.rigid_transform == coordsTransform" + ("Geo" if geo else ""), inp,
-                      bool(np.abs(out - wo).max() <= TOL_CO * scale), True)
+                      bool(np.abs(out - wo).max() <= tol_m), True)
             if om is not None:
                 wm = np.array([[unfr(v) for v in p] for p in mo["mask"]]).reshape(len(Mk), d).T
                 ctx.agree("matching_utils.rigid_transform(mask) == coordsTransform.2", inp,
-                          bool(np.abs(om - wm).max() <= TOL_CO * scale), True)
+                          bool(np.abs(om - wm).max() <= tol_m), True)
     # ---- property clauses
-    N = xs.shape[1]
-    dist_in = np.linalg.norm(xs[:, :, None] - xs[:, None, :], axis=0)
-    dist_out = np.linalg.norm(out[:, :, None] - out[:, None, :], axis=0)
-    ctx.spec("coordinate version preserves all pairwise distances", inp, bool(np.abs(dist_in - dist_out).max() <= 1e-7 * scale),
+    sub = slice(0, N) if N <= 400 else slice(0, 40)        # large sets: 40 points against all others
+    dist_in = np.linalg.norm(xs[:, sub, None] - xs[:, None, :], axis=0)
+    dist_out = np.linalg.norm(out[:, sub, None] - out[:, None, :], axis=0)
+    ctx.spec("coordinate version preserves all pairwise distances", inp, bool(np.abs(dist_in - dist_out).max() <= tol_s),
              {"maxerr": float(np.abs(dist_in - dist_out).max())}, key="coords:distances")
     cen = xs.mean(axis=1)
     target = (cen if center is None else np.array([float(v) for v in center])) + tf
     if not geo:
         key = "coords:centroid:dtype-mismatch" if mismatch else "coords:centroid"
         cerr = float(np.abs(out.mean(axis=1) - target).max())
-        ctx.spec("coordinate version moves the centroid by exactly the translation", inp, cerr <= 1e-7 * scale,
+        ctx.spec("coordinate version moves the centroid by exactly the translation", inp, cerr <= tol_s,
                  {"err": cerr}, key=key)
         if not mismatch:
-            want = Rf @ (xs - cen[:, None]) + target[:, None]
+            want = Rf64 @ (xs - cen[:, None]) + target[:, None]
             ferr = float(np.abs(out - want).max())
-            ctx.spec("coordinate version is R(x - centroid) + centroid + t", inp, ferr <= 1e-7 * scale, {"err": ferr},
+            ctx.spec("coordinate version is R(x - centroid) + centroid + t", inp, ferr <= tol_s, {"err": ferr},
                      key="coords:formula")
             if om is not None:
-                wantm = Rf @ (ms - cen[:, None]) + target[:, None]
+                wantm = Rf64 @ (ms - cen[:, None]) + target[:, None]
                 merr = float(np.abs(om - wantm).max())
-                ctx.spec("coordinate mask is moved by the same map", inp, merr <= 1e-7 * scale, {"err": merr}, key="coords:mask")
+                ctx.spec("coordinate mask is moved by the same map", inp, merr <= tol_s, {"err": merr}, key="coords:mask")
     else:
         # use_geometric_center=True: rotated set re-boxed; orientation must still be R (not R^T, not a mirror)
         rel_in = xs - xs[:, :1]
         rel_out = out - out[:, :1]
-        oerr = float(np.abs(rel_out - Rf @ rel_in).max())
-        ctx.spec("coordinate version (geometric centre) rotates by R", inp, oerr <= 1e-7 * scale, {"err": oerr}, key="coords:geo-rotation")
+        oerr = float(np.abs(rel_out - Rf64 @ rel_in).max())
+        ctx.spec("coordinate version (geometric centre) rotates by R", inp, oerr <= tol_s, {"err": oerr}, key="coords:geo-rotation")
     ctx.count(f"coords:{d}D:{'geo' if geo else 'centroid'}:via={via}")
     ctx.count("coords:center=" + ("given" if center is not None else "none"))
-    ctx.distinct(("coords", inp["x"], inp["R"], inp["t"], geo, via, inp.get("center"), mismatch))
+    if form:
+        ctx.count(f"coords:dtype={cdt.name}")
+        ctx.count(f"coords:layout={form.get('layout', 'C')}")
+        ctx.count(f"coords:out-layout={form.get('out_layout', 'C')}")
+        ctx.count(f"coords:t={tk}:R={form.get('R_dtype', 'float64')}/{form.get('R_layout', 'C')}")
+    if N > 400:
+        ctx.count("coords:large-N")
+    ctx.distinct(("coords", inp.get("x") or inp.get("xgen"), inp["R"], inp["t"], geo, via, inp.get("center"), mismatch, sorted(form.items())))
 
 
 def case_agree(ctx, inp, model=True):
@@ -536,13 +823,15 @@ def case_agree(ctx, inp, model=True):
     from tme.matching_utils import rigid_transform as crt
     shape, R, t, order = tuple(inp["shape"]), inp["R"], inp["t"], inp["order"]
     d = len(shape)
-    a = np.array(inp["data"], dtype=np.float32).reshape(shape)
+    form = inp.get("form") or {}
+    a = np.array(inp["data"], dtype=np.dtype(form.get("dtype", "float32"))).reshape(shape)
     Rf, tf = np.array(R, float), np.array(t, float)
-    out, _ = be.rigid_transform(a.copy(), Rf, translation=tf, use_geometric_center=True, order=order)
+    out, _ = be.rigid_transform(present(a, form.get("layout", "C")), Rf, translation=tf, use_geometric_center=True, order=order)
     out = np.asarray(out, float)
-    grid = np.indices(shape).reshape(d, -1).astype(float)     # all voxel coordinates: centroid = (n-1)/2
-    moved = np.empty_like(grid)
+    grid = present(np.indices(shape).reshape(d, -1).astype(float), form.get("coords_layout", "C"))     # all voxel coordinates: centroid = (n-1)/2
+    moved = present(np.full(grid.shape, 7.0), form.get("out_layout", "C"))
     crt(coordinates=grid, rotation_matrix=Rf, out=moved, translation=tf)
+    moved = np.asarray(moved, float)
     mi = np.rint(moved).astype(int)
     ok = bool(np.abs(moved - mi).max() <= 1e-9)
     n = np.array(shape)[:, None]
@@ -556,12 +845,221 @@ def case_agree(ctx, inp, model=True):
         rest[tuple(mi[:, inside])] = 0
         ok = ok and bool(np.abs(rest).max() <= TOL_GRID)
     ctx.spec("array and coordinate implementations agree on the same data", inp, ok, key="agree:array-vs-coords")
-    ctx.count(f"agree:{d}D")
-    ctx.distinct(("agree", shape, R, t, order))
+    ctx.count(f"agree:{d}D" + (":cube" if len(set(shape)) == 1 else ":non-cubic"))
+    ctx.distinct(("agree", shape, R, t, order, sorted(form.items())))
+
+
+def _grid_ok(out, ref, R, t, tol=TOL_GRID):
+    """out == ref moved by the grid element (R, t), either composition order (see case_grid); None = not a grid map"""
+    w1 = spec_forward_grid(ref, R, t)
+    if w1 is None:
+        return None, None
+    e = float(np.abs(np.asarray(out, float) - w1).max())
+    if any(t) and np.array(R).tolist() != np.eye(len(t), dtype=int).tolist():
+        w2 = spec_forward_grid(ref, R, t, after=True)
+        if w2 is not None:
+            e = min(e, float(np.abs(np.asarray(out, float) - w2).max()))
+    return e <= tol, e
+
+
+def case_sequence(ctx, inp, model=True):
+    """A *sequence* of calls in one process on persistent objects, as the scoring loops and the optimiser issue them: the
+    same array / mask objects (content possibly replaced in place), the same output buffers (never cleared), one backend
+    object; shape, rotation, translation (given / left out), order (given / default), mask (given / left out), centre
+    mode and `cache` vary from call to call.  Every call must satisfy the grid clauses for the arguments of *that* call:
+    nothing may depend on what was transformed before.  Arrays are regenerated from inp["seed"], so the record replays."""
+    bk = _backend(inp.get("via", "backend"))
+    r = np.random.default_rng(int(inp["seed"]))
+    arrs, masks, bufs, mbufs = {}, {}, {}, {}
+    bad = None
+    kept = []        # (step, result object, its value when returned): library-allocated results must not be overwritten later
+    for si, st in enumerate(inp["steps"]):
+        shape = tuple(st["shape"])
+        d = len(shape)
+        if shape not in arrs or st.get("newobj"):
+            arrs[shape] = r.integers(-5, 10, size=shape).astype(np.float32)
+            masks[shape] = (r.random(shape) > 0.5).astype(np.float32)
+        elif st.get("refill"):
+            arrs[shape][...] = r.integers(-5, 10, size=shape)      # same object, new content
+            masks[shape][...] = r.random(shape) > 0.5
+        arr, msk = arrs[shape], masks[shape]
+        ref, mref = arr.astype(float), msk.astype(float)
+        R, t = st["R"], st.get("t")
+        kw = {}
+        if t is not None:
+            kw["translation"] = np.array(t, float)
+        if st.get("order") is not None:
+            kw["order"] = int(st["order"])
+        order = 3 if st.get("order") is None else int(st["order"])
+        if st.get("geo", True):
+            kw["use_geometric_center"] = True      # else: backend default (centre of mass); only issued with R = 1
+        if st.get("mask"):
+            kw["arr_mask"] = msk
+        if st.get("cache"):
+            kw["cache"] = True
+        bshape = tuple(st.get("bufshape") or shape)
+        shadow = None
+        if st.get("buf") == "persist":
+            if bshape not in bufs:
+                bufs[bshape] = np.full(bshape, 77, np.float32)
+                mbufs[bshape] = np.full(bshape, 55, np.float32)
+            kw["out"] = bufs[bshape]
+            shadow = bufs[bshape].copy()       # what the buffer holds from earlier calls
+            if st.get("mask"):
+                kw["out_mask"] = mbufs[bshape]
+        elif st.get("buf") == "fresh":
+            kw["out"] = np.zeros(shape, np.float32)
+        out, om = bk.rigid_transform(arr, np.array(R, dtype=np.dtype(st.get("R_dtype", "float64"))), **kw)
+        corner = tuple(slice(0, s_) for s_ in shape)
+        tt = [0] * d if t is None else t
+        ok, err = _grid_ok(np.asarray(out)[corner], ref, R, tt)
+        why = None
+        if ok is False:
+            why = {"step": si, "what": "data", "maxerr": err}
+        elif not np.array_equal(arr, ref):
+            why = {"step": si, "what": "input array modified"}
+        elif (om is None) != (not st.get("mask")):
+            why = {"step": si, "what": "mask returned although none was passed" if om is not None else "no mask returned"}
+        elif om is not None and order <= 1:
+            okm, errm = _grid_ok(np.asarray(om)[corner], mref, R, tt)
+            if okm is False:
+                why = {"step": si, "what": "mask", "maxerr": errm}
+        if why is None and shadow is not None:
+            shadow[corner] = kw["out"][corner]
+            if out is not kw["out"] or not np.array_equal(shadow, kw["out"]):
+                why = {"step": si, "what": "buffer not used / written outside the leading corner"}
+        ctx.count("sequence:steps")
+        if why is not None:
+            bad = why
+            break
+        if "out" not in kw:
+            kept.append((si, out, np.array(out, copy=True)))
+        if om is not None and "out_mask" not in kw:
+            kept.append((si, om, np.array(om, copy=True)))
+    if bad is None:
+        for si, obj, val in kept:
+            if not np.array_equal(np.asarray(obj), val):
+                bad = {"step": si, "what": "the array returned by this call was overwritten by a later call"}
+                break
+    ctx.spec("grid transform is exact whatever was transformed before (persistent arrays, buffers and backend object)",
+             inp, bad is None, bad, key="grid:call-sequence")
+    ctx.distinct(("sequence", inp["seed"], len(inp["steps"])))
+    ctx.count("sequence")
+
+
+def case_dseq(ctx, inp, model=True):
+    """One Density object transformed repeatedly (optional arguments given in one call and left out in the next; results
+    optionally transformed again): every result is the grid image of the data the object holds at call time, the object
+    itself and its metadata stay as they are."""
+    from tme import Density
+    r = np.random.default_rng(int(inp["seed"]))
+    shape = tuple(inp["shape"])
+    d = len(shape)
+    dt = np.dtype(inp.get("dtype", "float32"))
+    data = r.integers(-5, 10, size=shape).astype(dt)
+    origin = np.array(inp.get("origin") or [0.0] * d, float)
+    rate = np.array(inp.get("sampling_rate") or [1.0] * d, float)
+    dens = Density(data.copy(), origin=origin.copy(), sampling_rate=rate.copy())
+    bad = None
+    kept = []        # every returned Density keeps the values it was returned with
+    for si, st in enumerate(inp["steps"]):
+        cur = np.array(dens.data, dtype=float)
+        kw = {"rotation_matrix": np.array(st["R"], float)}
+        if st.get("t") is not None:
+            kw["translation"] = np.array(st["t"], float)
+        if st.get("order") is not None:
+            kw["order"] = int(st["order"])
+        if st.get("geo") is not None:
+            kw["use_geometric_center"] = bool(st["geo"])       # only True is issued: default and explicit must agree
+        res = dens.rigid_transform(**kw)
+        tt = [0] * d if st.get("t") is None else st["t"]
+        ok, err = _grid_ok(res.data, cur, st["R"], tt)
+        if ok is False:
+            bad = {"step": si, "what": "data", "maxerr": err}
+        elif not np.array_equal(np.asarray(dens.data, float), cur) or res is dens:
+            bad = {"step": si, "what": "the transformed object itself was modified"}
+        elif not (np.allclose(res.origin, origin) and np.allclose(res.sampling_rate, rate)
+                  and np.allclose(dens.origin, origin) and np.allclose(dens.sampling_rate, rate)):
+            bad = {"step": si, "what": "origin / sampling rate changed"}
+        if bad is not None:
+            break
+        kept.append((si, res, np.array(res.data, copy=True)))
+        if st.get("chain"):
+            dens = res
+        ctx.count("dseq:steps")
+    if bad is None:
+        for si, obj, val in kept:
+            if not np.array_equal(np.asarray(obj.data), val):
+                bad = {"step": si, "what": "the Density returned by this call was overwritten by a later call"}
+                break
+    ctx.spec("Density.rigid_transform: every call of a sequence on one object is the exact grid image of its data", inp,
+             bad is None, bad, key="density:call-sequence")
+    ctx.distinct(("dseq", inp["seed"], shape, len(inp["steps"])))
+    ctx.count("dseq")
+
+
+def case_sseq(ctx, inp, model=True):
+    """One Structure and one coordinate array / output buffer reused over a sequence of calls (Structure method and the
+    plain function interleaved; translation as array / tuple; centre modes alternating; coordinates replaced in place):
+    each call obeys the coordinate clauses for its own arguments."""
+    from tme.matching_utils import rigid_transform as crt
+    r = np.random.default_rng(int(inp["seed"]))
+    N, d = int(inp["N"]), 3
+    xs = (r.integers(-80, 81, size=(N, d)) / 4.0)
+    st_obj = _structure(xs.copy())
+    coords = np.ascontiguousarray(xs.T)          # persistent (d, N) array for the plain function
+    outbuf = np.full((d, N), 7.0)
+    bad = None
+    kept = []
+    for si, st in enumerate(inp["steps"]):
+        Rf = fl(unrat_rows(st["R"]))
+        tf = np.array([unfr(v) for v in st["t"]], float)
+        geo = bool(st.get("geo"))
+        if st.get("refill"):
+            coords[...] = r.integers(-80, 81, size=(d, N)) / 4.0
+        if st["call"] == "structure":
+            src = np.asarray(st_obj.atom_coordinate, float).T.copy()
+            kw = {"use_geometric_center": geo} if st.get("geo") is not None else {}
+            res = st_obj.rigid_transform(rotation_matrix=Rf, translation=tuple(tf.tolist()) if st.get("tuple") else tf, **kw)
+            out = np.asarray(res.atom_coordinate, float).T
+            same = np.array_equal(np.asarray(st_obj.atom_coordinate, float).T, src)
+            kept.append((si, res, np.array(res.atom_coordinate, copy=True)))
+            if st.get("chain"):
+                st_obj = res
+        else:
+            src = coords.copy()
+            kw = {"use_geometric_center": geo} if st.get("geo") is not None else {}
+            crt(coordinates=coords, rotation_matrix=Rf, out=outbuf, translation=tf, **kw)
+            out = outbuf.copy()
+            same = np.array_equal(coords, src)
+        scale = 1.0 + float(np.abs(src).max()) + float(np.abs(tf).max())
+        cen = src.mean(axis=1)
+        if not same:
+            bad = {"step": si, "what": "input coordinates modified"}
+        elif geo:
+            e = float(np.abs((out - out[:, :1]) - Rf @ (src - src[:, :1])).max())
+            if e > 1e-7 * scale:
+                bad = {"step": si, "what": "geometric-centre call does not rotate by R", "err": e}
+        else:
+            e = float(np.abs(out - (Rf @ (src - cen[:, None]) + (cen + tf)[:, None])).max())
+            if e > 1e-7 * scale:
+                bad = {"step": si, "what": "not R(x - centroid) + centroid + t", "err": e}
+        ctx.count("sseq:steps")
+        if bad is not None:
+            break
+    if bad is None:
+        for si, obj, val in kept:
+            if not np.array_equal(np.asarray(obj.atom_coordinate), val):
+                bad = {"step": si, "what": "the Structure returned by this call was changed by a later call"}
+                break
+    ctx.spec("coordinate version: every call of a sequence on one Structure / one coordinate array obeys R(x-centroid)+centroid+t",
+             inp, bad is None, bad, key="coords:call-sequence")
+    ctx.distinct(("sseq", inp["seed"], N, len(inp["steps"])))
+    ctx.count("sseq")
 
 
 _CASES = {"grid": case_grid, "matrix": case_matrix, "linear": case_linear, "com": case_com, "coords": case_coords,
-          "agree": case_agree}
+          "agree": case_agree, "sequence": case_sequence, "dseq": case_dseq, "sseq": case_sseq}
 
 
 # ----------------------------------------------------------------------------------------------
@@ -626,14 +1124,49 @@ def _rand_mask(rng, shape):
 
 def _shapes(d, thorough):
     if d == 2:
-        base = [(4, 4), (5, 5), (6, 6), (7, 7), (3, 3), (2, 2), (5, 6), (6, 4), (7, 4), (5, 7), (8, 6), (1, 5)]
+        base = [(4, 4), (5, 5), (6, 6), (7, 7), (3, 3), (2, 2), (5, 6), (6, 4), (7, 4), (5, 7), (8, 6), (1, 5), (13, 13), (9, 9)]
         if thorough:
-            base += [(8, 8), (9, 9), (3, 8), (9, 5)]
+            base += [(8, 8), (3, 8), (9, 5), (11, 11), (16, 16), (1, 1), (5, 1)]
     else:
-        base = [(4, 4, 4), (5, 5, 5), (3, 3, 3), (5, 6, 5), (4, 4, 6), (6, 5, 5), (3, 5, 7), (4, 6, 4), (2, 3, 2)]
+        base = [(4, 4, 4), (5, 5, 5), (3, 3, 3), (5, 6, 5), (4, 4, 6), (6, 5, 5), (3, 5, 7), (4, 6, 4), (2, 3, 2), (1, 4, 4), (5, 1, 5)]
         if thorough:
-            base += [(6, 6, 6), (7, 7, 7), (5, 5, 4), (6, 4, 6), (4, 5, 6)]
+            base += [(6, 6, 6), (7, 7, 7), (5, 5, 4), (6, 4, 6), (4, 5, 6), (9, 9, 2), (3, 3, 1)]
     return base
+
+
+def _pick(rng, seq):
+    return seq[int(rng.integers(0, len(seq)))]
+
+
+def _rand_form(rng, c, density=False):
+    """presentation of a grid / linear case: layouts, dtypes, scale and offset, kinds of R and t (see case_grid)"""
+    order, has_mask, t = c.get("order", 1), c.get("mask") is not None, c["t"]
+    f = {"layout": _pick(rng, IN_LAYOUTS)}
+    dtype = _pick(rng, ["float32", "float32", "float32", "float64", "float64", "int16", "int32", "int64", "int8", "uint8"])
+    f["dtype"] = dtype
+    if dtype.startswith("float"):
+        f["scale_exp"] = _pick(rng, [-30, -30, -20, -10, 0, 0, 5, 10])      # 2^-30 ~ 1e-9 ... 2^10 ~ 1e3, exact in float32
+        f["offset"] = _pick(rng, [0, 0, 0, 100, 1000])
+    elif dtype == "uint8":
+        f["offset"] = _pick(rng, [5, 100, 240])      # data is -5 .. 9: all values stay inside 0 .. 255
+    elif dtype == "int8":
+        f["offset"] = _pick(rng, [0, 100, -120])     # inside -128 .. 127
+    else:
+        f["offset"] = _pick(rng, [0, 0, 1000, -1000])
+    if has_mask:
+        f["mask_layout"] = _pick(rng, IN_LAYOUTS)
+        f["mask_dtype"] = _pick(rng, ["float32", "float64"] + (["bool", "int32", "uint8"] if order <= 1 else []))
+    f["R_dtype"] = _pick(rng, ["float64", "float32", "int64"])
+    f["R_layout"] = _pick(rng, ["C", "F", "offset", "strided"])
+    f["t_form"] = "omit" if (not any(t) and rng.random() < 0.5) else _pick(rng, ["float64", "float32", "int64"])
+    return f
+
+
+def _rand_out_form(rng, form):
+    o = {"layout": _pick(rng, OUT_LAYOUTS), "mask_layout": _pick(rng, OUT_LAYOUTS)}
+    if rng.random() < 0.25:
+        o["dtype"] = "float64"           # a buffer of higher precision than the data
+    return o
 
 
 def gen_grid(ctx, rng, wide=False):
@@ -659,9 +1192,16 @@ def gen_grid(ctx, rng, wide=False):
                     c = {"kind": "grid", "shape": list(shape), "R": R, "t": tr, "order": order,
                          "data": _rand_data(rng, shape, full=bool(rng.random() < 0.7)),
                          "mask": _rand_mask(rng, shape) if use_mask else None,
-                         "buffers": bool(rng.random() < 0.3), "via": "backend"}
-                    if c["buffers"] and rng.random() < 0.6:
+                         "buffers": _pick(rng, [False, False, False, False, "both", "both", "both", "out", "mask"]),
+                         "via": "backend64" if rng.random() < 0.1 else "backend"}
+                    if c["buffers"] == "mask" and not use_mask:
+                        c["buffers"] = False
+                    if c["buffers"] in ("both", "out") and rng.random() < 0.6:
                         c["bufshape"] = [int(s_ + v) for s_, v in zip(shape, rng.integers(0, 4, size=d))]
+                    if rng.random() < 0.5:
+                        c["form"] = _rand_form(rng, c)
+                        if c["buffers"]:
+                            c["out_form"] = _rand_out_form(rng, c["form"])
                     cases.append(c)
     # identity + integer translations (incl. moving everything out)
     for d in (2, 3):
@@ -670,22 +1210,69 @@ def gen_grid(ctx, rng, wide=False):
             ts = [[0] * d] + [[int(v) for v in rng.integers(-3, 4, size=d)] for _ in range(4 if not ctx.thorough else 10)]
             ts.append([shape[0]] + [0] * (d - 1))
             ts.append([0] * (d - 1) + [-(shape[-1] - 1)])
+            ts.append([0] * (d - 1) + [1])
             for tr in ts:
                 for order in ([0, 1, 2, 3] if (ctx.thorough or wide) else [int(rng.integers(0, 4)), 3]):
-                    cases.append({"kind": "grid", "shape": list(shape), "R": I, "t": tr, "order": order,
-                                  "data": _rand_data(rng, shape), "mask": _rand_mask(rng, shape) if rng.random() < 0.5 else None,
-                                  "buffers": bool(rng.random() < 0.3), "via": "backend"})
-    # Density.rigid_transform wrapper (default: geometric centre, order 3)
+                    c = {"kind": "grid", "shape": list(shape), "R": I, "t": tr, "order": order,
+                         "data": _rand_data(rng, shape), "mask": _rand_mask(rng, shape) if rng.random() < 0.5 else None,
+                         "buffers": _pick(rng, [False, False, "both", "out"]), "via": "backend"}
+                    if rng.random() < 0.5:
+                        c["form"] = _rand_form(rng, c)
+                        if c["buffers"]:
+                            c["out_form"] = _rand_out_form(rng, c["form"])
+                    cases.append(c)
+    # larger 2-D arrays (the centre (n-1)/2 far from the origin; extents 1 mod 4, powers of two, non-fast lengths)
+    for s_ in ((33, 33), (64, 64)) + (((37, 37), (29, 1), (50, 50)) if ctx.thorough or wide else ()):
+        for R in signed_perms(2, True):
+            if not leaves_invariant(R, s_):
+                continue
+            c = {"kind": "grid", "shape": list(s_), "R": R, "t": [0, 0] if rng.random() < 0.7 else [int(v) for v in rng.integers(-9, 10, size=2)],
+                 "order": int(rng.integers(0, 4)), "data": _rand_data(rng, s_), "mask": _rand_mask(rng, s_) if rng.random() < 0.4 else None,
+                 "buffers": False, "via": "backend"}
+            if rng.random() < 0.5:
+                c["form"] = _rand_form(rng, c)
+            cases.append(c)
+    # Density.rigid_transform wrapper (default: geometric centre, order 3); origin / sampling rate are metadata only
     for d in (2, 3):
         props = signed_perms(d, True)
-        for shape in ((5, 5), (6, 6)) if d == 2 else ((4, 4, 4), (5, 5, 5)):
+        for shape in ((5, 5), (6, 6), (9, 9)) if d == 2 else ((4, 4, 4), (5, 5, 5), (3, 3, 6)):
             for R in props:
-                if rng.random() < (1.0 if ctx.thorough or wide else 0.4):
-                    cases.append({"kind": "grid", "shape": list(shape), "R": R, "t": [0] * d, "order": 3,
-                                  "data": _rand_data(rng, shape), "mask": None, "via": "density", "defaults": True})
-            cases.append({"kind": "grid", "shape": list(shape), "R": np.eye(d, dtype=int).tolist(),
-                          "t": [int(v) for v in rng.integers(-2, 3, size=d)], "order": int(rng.integers(0, 4)),
-                          "data": _rand_data(rng, shape), "mask": None, "via": "density"})
+                if not leaves_invariant(R, shape):
+                    continue
+                if rng.random() < (1.0 if ctx.thorough or wide else 0.6):
+                    c = {"kind": "grid", "shape": list(shape), "R": R, "t": [0] * d, "order": 3,
+                         "data": _rand_data(rng, shape), "mask": None, "via": "density", "defaults": True}
+                    if rng.random() < 0.6:
+                        c["order"] = int(rng.integers(0, 4))
+                        c["defaults"] = bool(rng.random() < 0.5)
+                    if rng.random() < 0.3:
+                        c["t"] = [int(v) for v in rng.integers(-1, 2, size=d)]
+                    if rng.random() < 0.7:
+                        c["form"] = _rand_form(rng, c)
+                        c["origin"] = [float(v) for v in rng.integers(-40, 41, size=d) / 4.0]
+                        c["sampling_rate"] = [float(v) for v in rng.integers(1, 13, size=d) / 4.0]
+                    cases.append(c)
+            for _ in range(2):
+                # dynamic range above 1/eps: the clean-up of Density.rigid_transform is active (model: cleanNoise)
+                dtn = _pick(rng, ["float32", "float64"])
+                big = 2 ** (24 if dtn == "float32" else 53)
+                data = [int(v) for v in rng.integers(-3, 4, size=int(np.prod(shape)))]
+                for k in rng.choice(len(data), size=2, replace=False):
+                    data[int(k)] = int(big * _pick(rng, [1, -1]))
+                cases.append({"kind": "grid", "shape": list(shape), "R": _pick(rng, [R for R in props if leaves_invariant(R, shape)]),
+                              "t": [0] * d, "order": int(rng.integers(0, 2)), "data": data, "mask": None, "via": "density",
+                              "form": {"dtype": dtn, "scale_exp": _pick(rng, [-30, 0, 10]), "layout": _pick(rng, IN_LAYOUTS)}})
+            for _ in range(6):
+                c = {"kind": "grid", "shape": list(shape), "R": np.eye(d, dtype=int).tolist(),
+                     "t": [int(v) for v in rng.integers(-2, 3, size=d)], "order": int(rng.integers(0, 4)),
+                     "data": _rand_data(rng, shape), "mask": None, "via": "density"}
+                if rng.random() < 0.5:
+                    c["t"] = [0] * d
+                if rng.random() < 0.7:
+                    c["form"] = _rand_form(rng, c)
+                    c["origin"] = [float(v) for v in rng.integers(-40, 41, size=d) / 4.0]
+                    c["sampling_rate"] = [float(v) for v in rng.integers(1, 13, size=d) / 4.0]
+                cases.append(c)
     return cases
 
 
@@ -728,7 +1315,8 @@ def gen_linear(ctx, rng, n):
     for i in range(n):
         d = 2 if i % 3 else 3
         shape = tuple(int(v) for v in rng.integers(3, 8 if d == 2 else 6, size=d))
-        R = rational_rotation(rng, d)
+        small = bool(i % 5 == 4)
+        R = rational_rotation(rng, d, small=small)
         t = [Fraction(int(v), 4) for v in rng.integers(-6, 7, size=d)] if rng.random() < 0.7 else [Fraction(0)] * d
         geo = bool(i % 4 != 3)
         data = rng.integers(-3, 10, size=shape) if not geo else rng.integers(-5, 10, size=shape)
@@ -736,8 +1324,23 @@ def gen_linear(ctx, rng, n):
             # centre of mass with cutoff 0: negative voxels are ignored for the centre but still transformed
             data[rng.random(shape) < 0.3] = 0
             data.reshape(-1)[0] = 2
-        cases.append({"kind": "linear", "shape": list(shape), "R": frm(R), "t": frs(t), "geo": geo,
-                      "data": [int(v) for v in data.reshape(-1)], "defaults": bool(not geo and rng.random() < 0.5)})
+        c = {"kind": "linear", "shape": list(shape), "R": frm(R), "t": frs(t), "geo": geo, "small": small,
+             "data": [int(v) for v in data.reshape(-1)], "defaults": bool(not geo and rng.random() < 0.5)}
+        u = rng.random()
+        if u < 0.35:
+            c["mask"] = _rand_mask(rng, shape)       # the mask must use the data's centre (geometric or centre of mass)
+        elif u < 0.5:
+            c["via"] = "density"
+        elif u < 0.6:
+            c["via"] = "backend64"
+        if rng.random() < 0.4:
+            f = {"layout": _pick(rng, IN_LAYOUTS), "dtype": _pick(rng, ["float32", "float64"]),
+                 "scale_exp": _pick(rng, [-30, -10, 0, 10]), "R_dtype": _pick(rng, ["float64", "float32"]),
+                 "R_layout": _pick(rng, ["C", "F", "offset"])}
+            if geo:
+                f["offset"] = _pick(rng, [0, 0, 100])      # (centre of mass: the offset would make every voxel positive - also fine)
+            c["form"] = f
+        cases.append(c)
     return cases
 
 
@@ -745,28 +1348,40 @@ def gen_com(ctx, rng, n):
     cases = []
     sigma = 1.3
     margin = 4.5 * sigma
-    while len(cases) < n:
+    for attempt in range(6 * n):        # bounded: a rejected draw is counted, never retried for ever
+        if len(cases) >= n:
+            break
         i = len(cases)
         d = 2 if i % 2 else 3
         s = int(rng.integers(18, 25)) if d == 3 else int(rng.integers(24, 40))
         shape = (s,) * d if rng.random() < 0.5 else tuple(int(s + v) for v in rng.integers(-2, 3, size=d))
-        R = rational_rotation(rng, d)
+        R = rational_rotation(rng, d, small=bool(attempt % 6 == 5))
         c = (np.array(shape) - 1) / 2
         r = min(shape) / 5.0
         blob = (c + rng.uniform(-r, r, size=d)).round(2)
         blob2 = (c + rng.uniform(-r, r, size=d)).round(2)
         t = [Fraction(int(v), 2) for v in rng.integers(-2, 3, size=d)] if rng.random() < 0.4 else [Fraction(0)] * d
         tf = np.array([float(v) for v in t])
+        geo = bool(rng.random() < 0.8)
+        # rotation centre: geometric, or (backend default) the centre of mass of the two blobs (weights 1 and 1/2)
+        cu = c if geo else (blob + 0.5 * blob2) / 1.5
         ok = True
         for b in (blob, blob2):
-            img = fl(R) @ (b + tf - c) + c
+            img = fl(R) @ (b + tf - cu) + cu
             ok = ok and np.all(img >= margin) and np.all(img <= np.array(shape) - 1 - margin) \
                 and np.all(b >= margin) and np.all(b <= np.array(shape) - 1 - margin)
         if not ok:
             ctx.count("com:generator-rejected(blob would leave the box)")
             continue
-        cases.append({"kind": "com", "shape": list(shape), "R": frm(R), "t": frs(t), "order": int(i % 4), "blob": blob.tolist(),
-                      "blob2": blob2.tolist(), "sigma": sigma, "mask": bool(rng.random() < 0.5)})
+        case = {"kind": "com", "shape": list(shape), "R": frm(R), "t": frs(t), "order": int(i % 4), "blob": blob.tolist(),
+                "blob2": blob2.tolist(), "sigma": sigma, "mask": bool(rng.random() < 0.5), "geo": geo}
+        u = rng.random()
+        if u < 0.25:
+            case["via"] = "density"
+        if rng.random() < 0.5:
+            case["form"] = {"amp": _pick(rng, [1e-9, 1e-6, 1e-3, 1.0, 30.0, 1e3]), "dtype": _pick(rng, ["float32", "float32", "float64"]),
+                            "layout": _pick(rng, IN_LAYOUTS)}
+        cases.append(case)
     return cases
 
 
@@ -780,16 +1395,32 @@ def gen_coords(ctx, rng, n):
             sp = signed_perms(d, True)
             R = [[Fraction(v) for v in r] for r in sp[int(rng.integers(0, len(sp)))]]
         else:
-            R = rational_rotation(rng, d)
+            R = rational_rotation(rng, d, small=bool(i % 11 == 3))
         t = [Fraction(int(v), 4) for v in rng.integers(-40, 41, size=d)]
+        if i % 13 == 0:
+            t = [Fraction(0)] * d
         geo = bool(i % 4 == 1)
         via = "structure" if (i % 7 == 2 and d == 3) else "function"
         center = [Fraction(int(v), 2) for v in rng.integers(-10, 11, size=d)] if (via == "function" and rng.random() < 0.25) else None
         maskpts = [[Fraction(int(v), 4) for v in rng.integers(-80, 81, size=d)] for _ in range(int(rng.integers(1, 5)))] \
             if (via == "function" and rng.random() < 0.5) else []
-        cases.append({"kind": "coords", "x": [frs(p) for p in x], "R": frm(R), "t": frs(t), "geo": geo, "via": via,
-                      "center": None if center is None else frs(center), "maskpts": [frs(p) for p in maskpts],
-                      "defaults": bool((not geo) and rng.random() < 0.5)})
+        c = {"kind": "coords", "x": [frs(p) for p in x], "R": frm(R), "t": frs(t), "geo": geo, "via": via,
+             "center": None if center is None else frs(center), "maskpts": [frs(p) for p in maskpts],
+             "defaults": bool((not geo) and rng.random() < 0.5)}
+        if rng.random() < 0.4:
+            c["form"] = {"dtype": _pick(rng, ["float64", "float64", "float32"]), "layout": _pick(rng, IN_LAYOUTS),
+                         "out_layout": _pick(rng, OUT_LAYOUTS), "R_dtype": _pick(rng, ["float64", "float64", "float32"]),
+                         "R_layout": _pick(rng, ["C", "F", "offset", "strided"]),
+                         "t_kind": _pick(rng, ["ndarray", "list", "tuple", "float32"])}
+        cases.append(c)
+    # large point sets (more than 10 000 points: above any plausible chunking / algorithm-switch threshold)
+    for i in range(3 if not ctx.thorough else 12):
+        d = 3 if i % 2 == 0 else 2
+        c = {"kind": "coords", "xgen": {"seed": int(rng.integers(0, 2**31)), "N": _pick(rng, [10001, 12345, 16384, 20000]), "d": d},
+             "R": frm(rational_rotation(rng, d)), "t": frs([Fraction(int(v), 4) for v in rng.integers(-40, 41, size=d)]),
+             "geo": bool(i % 3 == 2), "via": "structure" if (i % 3 == 1 and d == 3) else "function", "center": None, "maskpts": [],
+             "defaults": False}
+        cases.append(c)
     # dtype mismatch stream (integer coordinates, float64 out): the re-centring tail of the function
     # (kept small: its centroid clause fails under a known finding, and main.py keeps at most 500 failure records)
     for i in range(min(40, max(4, n // 10))):
@@ -809,13 +1440,72 @@ def gen_agree(ctx, rng, n):
         d = 2 + (i % 2)
         s = int(rng.integers(3, 7))
         shape = (s,) * d
-        sp = signed_perms(d, True)
+        if i % 4 == 3:      # non-cubic: one axis differs, rotations about it (and half turns) keep the box
+            shape = tuple(int(v) for v in (list(shape[:-1]) + [int(rng.integers(1, 8))]))
+        sp = [R for R in signed_perms(d, True) if leaves_invariant(R, shape)]
         if i % 3 == 0:
             R, t = np.eye(d, dtype=int).tolist(), [int(v) for v in rng.integers(-2, 3, size=d)]
         else:
             R, t = sp[int(rng.integers(0, len(sp)))], [0] * d
-        cases.append({"kind": "agree", "shape": list(shape), "R": R, "t": t, "order": int(rng.integers(0, 4)),
-                      "data": _rand_data(rng, shape)})
+        c = {"kind": "agree", "shape": list(shape), "R": R, "t": t, "order": int(rng.integers(0, 4)),
+             "data": _rand_data(rng, shape)}
+        if rng.random() < 0.4:
+            c["form"] = {"layout": _pick(rng, IN_LAYOUTS), "dtype": _pick(rng, ["float32", "float64", "int32"]),
+                         "coords_layout": _pick(rng, IN_LAYOUTS), "out_layout": _pick(rng, OUT_LAYOUTS)}
+        cases.append(c)
+    return cases
+
+
+def gen_sequences(ctx, rng, n):
+    """call sequences on persistent objects (see case_sequence / case_dseq / case_sseq)"""
+    cases = []
+    for it in range(n):
+        d = 2 if it % 2 else 3
+        base = int(rng.integers(3, 7))
+        shapes = [(base,) * d, (int(rng.integers(3, 7)),) * d, (base + 1,) * d]
+        rots = signed_perms(d, proper=True)
+        I = np.eye(d, dtype=int).tolist()
+        steps = []
+        for k in range(int(rng.integers(3, 8))):
+            shape = shapes[0] if rng.random() < 0.6 else _pick(rng, shapes)
+            st = {"shape": list(shape), "R": _pick(rng, rots) if rng.random() < 0.75 else I,
+                  "order": _pick(rng, [0, 1, 2, 3, 3, None]), "mask": bool(rng.random() < 0.4), "cache": bool(rng.random() < 0.6),
+                  "refill": bool(rng.random() < 0.3), "newobj": bool(rng.random() < 0.1),
+                  "buf": _pick(rng, [None, "fresh", "persist", "persist"]), "R_dtype": _pick(rng, ["float64", "float32"])}
+            u = rng.random()
+            st["t"] = None if u < 0.5 else [0] * d if u < 0.6 else [int(v) for v in rng.integers(-2, 3, size=d)]
+            if st["buf"] == "persist":
+                big = max(max(s_) for s_ in shapes) + int(rng.integers(0, 3))
+                st["bufshape"] = [big] * d if rng.random() < 0.7 else list(shape)
+            if rng.random() < 0.12:
+                st.update({"geo": False, "R": I, "t": None})      # backend default centre; exact only for the identity
+            steps.append(st)
+        cases.append({"kind": "sequence", "seed": int(rng.integers(0, 2**31)), "steps": steps,
+                      "via": "backend64" if rng.random() < 0.1 else "backend"})
+    for it in range(max(2, n // 4)):
+        d = 2 if it % 2 else 3
+        s_ = int(rng.integers(3, 7))
+        shape = (s_,) * d
+        rots = signed_perms(d, proper=True)
+        steps = []
+        for k in range(int(rng.integers(3, 7))):
+            u = rng.random()
+            steps.append({"R": _pick(rng, rots) if rng.random() < 0.7 else np.eye(d, dtype=int).tolist(),
+                          "t": None if u < 0.45 else [int(v) for v in rng.integers(-2, 3, size=d)],
+                          "order": _pick(rng, [None, None, 0, 1, 2, 3]), "geo": _pick(rng, [None, None, True]),
+                          "chain": bool(rng.random() < 0.3)})
+        cases.append({"kind": "dseq", "seed": int(rng.integers(0, 2**31)), "shape": list(shape), "steps": steps,
+                      "dtype": _pick(rng, ["float32", "float32", "float64", "int16"]),
+                      "origin": [float(v) for v in rng.integers(-20, 21, size=d) / 2.0],
+                      "sampling_rate": [float(v) for v in rng.integers(1, 9, size=d) / 2.0]})
+    for it in range(max(2, n // 4)):
+        steps = []
+        for k in range(int(rng.integers(3, 8))):
+            steps.append({"call": _pick(rng, ["structure", "function"]), "R": frm(rational_rotation(rng, 3, small=bool(rng.random() < 0.15))),
+                          "t": frs([Fraction(int(v), 4) for v in rng.integers(-40, 41, size=3)]),
+                          "geo": _pick(rng, [None, None, False, True]), "tuple": bool(rng.random() < 0.4),
+                          "refill": bool(rng.random() < 0.3), "chain": bool(rng.random() < 0.3)})
+        cases.append({"kind": "sseq", "seed": int(rng.integers(0, 2**31)), "N": int(rng.integers(1, 30)), "steps": steps})
     return cases
 
 
@@ -840,46 +1530,15 @@ def _corpus(ctx):
     for f in sorted(glob.glob(os.path.join(env.VERIF, "corpus", "C06_*.json"))):
         rec = json.load(open(f))
         for c in rec if isinstance(rec, list) else [rec]:
-            _CASES[c["kind"]](ctx, c, True)
+            _run_cases(ctx, [c])
             ctx.count("corpus")
-
-
-def _sequences(ctx, rng, n):
-    """Call *sequences* on one array object as the scoring loops issue them (`cache=True`, `out=` buffers): the result of
-    a call must not depend on earlier calls (different interpolation order, buffer refilled in place, other rotation)."""
-    be = _be()
-    for it in range(n):
-        d = 2 if it % 2 else 3
-        m = int(rng.integers(3, 7))
-        shape = (m,) * d
-        arr = rng.normal(size=shape).astype(np.float32)
-        rots = [R for R in signed_perms(d, proper=True)]
-        hist = []
-        ok, why = True, ""
-        for step in range(int(rng.integers(3, 7))):
-            order = int(rng.choice([0, 1, 2, 3]))
-            R = rots[int(rng.integers(0, len(rots)))]
-            if rng.random() < 0.3:
-                arr[...] = rng.normal(size=shape).astype(np.float32)      # same object, new content
-            out = np.zeros(shape, np.float32)
-            be.rigid_transform(arr=arr, rotation_matrix=np.array(R, dtype=np.float32), out=out, use_geometric_center=True,
-                               order=order, cache=True)
-            want = spec_forward_grid(arr, R, [0] * d)
-            hist.append({"order": order, "R": np.array(R).tolist()})
-            if want is None or float(np.max(np.abs(out - want))) > 1e-4:
-                ok, why = False, f"step {step}: max deviation {float(np.max(np.abs(out - want))):.4g}"
-                break
-        ctx.spec("grid rotation is an exact permutation whatever was transformed before (cache=True, same array object)",
-                 {"kind": "sequence", "shape": list(shape), "history": hist}, ok, why, key="grid:call-sequence")
-        ctx.distinct(("sequence", shape, tuple(h["order"] for h in hist)))
-        ctx.count("sequence")
 
 
 def run(ctx):
     _obligations(ctx)
     _corpus(ctx)
     rng = ctx.rng("main")
-    _sequences(ctx, ctx.rng("sequences"), ctx.budget(40, 300))
+    _run_cases(ctx, gen_sequences(ctx, ctx.rng("sequences"), ctx.budget(60, 400)))
     grid = gen_grid(ctx, rng)
     _run_cases(ctx, grid)
     _run_cases(ctx, gen_matrix(ctx, rng, ctx.budget(300, 3000)))
@@ -905,6 +1564,8 @@ def search(ctx):
     _run_cases(ctx, gen_com(ctx, rng, 120), model=False)
     _run_cases(ctx, gen_coords(ctx, rng, 1500), model=False)
     _run_cases(ctx, gen_agree(ctx, rng, 200), model=False)
+    _run_cases(ctx, gen_linear(ctx, rng, 300), model=False)
+    _run_cases(ctx, gen_sequences(ctx, rng, 150), model=False)
 
 
 def replay(ctx, rec):
